@@ -294,6 +294,9 @@ class World:
             while stack:
                 o = stack.pop()
                 if id(o) in seen:
+                    if op.a.get("deep_repeat"):
+                        # directed rejected constructor (new-dup-deep): one object below a detached wrapper AND directly
+                        break
                     return "object twice"
                 seen.add(id(o))
                 stack.extend(c for c, _f, _i in Z.kids_pos(o))
@@ -1005,7 +1008,7 @@ class RejectGen(Gen):
     def gen_reject(self):
         """-> (op, label) or None; preparation ops are executed on the way"""
         r = self.rng
-        kind = r.choice(["new-dup", "new-twin", "new-parent", "new-registry", "new-id",
+        kind = r.choice(["new-dup", "new-dup-deep", "new-twin", "new-parent", "new-registry", "new-id",
                          "attach-parent", "attach-registry", "attach-rootid", "attach-stale-cid",
                          "replace-bad", "replace-dup", "replace-parent", "replace-registry", "replace-ancestor", "twin-sibling",
                          "rwith-subtree", "rwith-none", "rwith-type", "rwith-attach-parent", "rwith-attach-registry",
@@ -1028,6 +1031,20 @@ class RejectGen(Gen):
                 kids["right"] = kids["left"]
             return Op(self.uid(), "new", None, {"cls": cls, "v": 0, "tag": "", "id": None, "org": 0, "eu": False,
                                                "asdup": False, "det": r.random() < 0.3, "kids": kids}), label
+        if kind == "new-dup-deep":
+            # the same attached root object reachable twice in the new subtree under two DIFFERENT holders: once below a
+            # detached wrapper, once directly (r11-c19-change1: the duplicate was noticed only after the wrapper had adopted it)
+            x = self.leaf()
+            wr = self.mk("LUn", {"arg": self.name(x)}) if x is not None else None
+            if wr is None:
+                return None
+            self.run(Op(self.uid(), "detach", self.name(wr), {"only_self": True}))
+            if not wr.detached or x.detached:
+                return None
+            pair = [self.name(wr), self.name(x)] if where != "last" else [self.name(x), self.name(wr)]
+            return Op(self.uid(), "new", None, {"cls": "LBin", "v": 0, "tag": "", "id": None, "org": 0, "eu": False,
+                                               "asdup": False, "det": False, "deep_repeat": True,
+                                               "kids": {"left": pair[0], "right": pair[1]}}), label
         if kind == "new-twin":
             a = self.mk("LLeaf", v=9, det=True)
             b = self.mk("LLeaf", v=9, det=True)
